@@ -3,7 +3,9 @@ package main
 import (
 	"fmt"
 	"go/ast"
+	"go/token"
 	"go/types"
+	"os"
 	"strings"
 )
 
@@ -36,7 +38,15 @@ func runC06(c *Ctx) {
 	const rel = "pkg/store"
 	isRecv := func(i *types.Info, call *ast.CallExpr) bool {
 		sel, ok := unparen(call.Fun).(*ast.SelectorExpr)
-		return ok && sel.Sel.Name == "Recv" && exprString(sel.X) == "cl"
+		return ok && sel.Sel.Name == "Recv" && strings.HasSuffix(shortType(i.TypeOf(sel.X)), "storepb.Store_SeriesClient")
+	}
+	isSrvSend := func(i *types.Info, call *ast.CallExpr) bool {
+		sel, ok := unparen(call.Fun).(*ast.SelectorExpr)
+		if !ok || sel.Sel.Name != "Send" {
+			return false
+		}
+		t := shortType(i.TypeOf(sel.X))
+		return strings.HasSuffix(t, "Store_SeriesServer") || strings.HasSuffix(t, "flushableServer") || strings.HasSuffix(t, "Server")
 	}
 	isWarnCtor := func(i *types.Info, call *ast.CallExpr) bool {
 		return strings.HasSuffix(funcFullName(calleeOf(i, call)), "storepb.NewWarnSeriesResponse")
@@ -208,7 +218,7 @@ func runC06(c *Ctx) {
 					hasSend := false
 					ast.Inspect(st, func(m ast.Node) bool {
 						if call, ok := m.(*ast.CallExpr); ok {
-							if sel, ok := unparen(call.Fun).(*ast.SelectorExpr); ok && sel.Sel.Name == "Send" && exprString(sel.X) == "srv" {
+							if isSrvSend(info, call) {
 								hasSend = true
 							}
 						}
@@ -297,10 +307,7 @@ func runC06(c *Ctx) {
 			c.Check(ok, "fanout-failure-strategy", rel+".(*ProxyStore).Series#open-stream", p.Pos(ctorCall.Pos()), "open-stream-failure-mishandled",
 				"a store whose stream cannot be opened must abort the request under abort/disabled and otherwise send a warning and continue")
 		}
-		checkErrsReturned(c, p, fn, "fanout-failure-strategy", "srv.Send", func(i *types.Info, call *ast.CallExpr) bool {
-			sel, ok := unparen(call.Fun).(*ast.SelectorExpr)
-			return ok && sel.Sel.Name == "Send" && exprString(sel.X) == "srv"
-		}, nil)
+		checkErrsReturned(c, p, fn, "fanout-failure-strategy", "srv.Send", isSrvSend, nil)
 	}
 
 	// (3) LabelNames / LabelValues
@@ -355,10 +362,15 @@ func runC06(c *Ctx) {
 						if strings.Contains(s, ".Unlock()") {
 							locked = false
 						}
-						if as, isAs := st.(*ast.AssignStmt); isAs && strings.Contains(exprString(as.Lhs[0]), "warnings") && locked {
+						// the failure is recorded: its text is appended to a []string under the lock
+						if as, isAs := st.(*ast.AssignStmt); isAs && len(as.Rhs) == 1 && locked && shortType(info.TypeOf(as.Lhs[0])) == "[]string" &&
+							strings.HasPrefix(canon(as.Rhs[0]), "append("+canon(as.Lhs[0])+",") && strings.HasSuffix(canon(as.Rhs[0]), ".Error())") {
 							warned = true
 						}
 					}
+				}
+				if os.Getenv("TVC_DEBUG") != "" {
+					fmt.Fprintf(os.Stderr, "C06 label-api %s: err=%v cx=%q rets=%v warned=%v\n", name, err, cx, rets, warned)
 				}
 				if err == nil && cx == "" && rets && warned {
 					ok = true
@@ -384,9 +396,25 @@ func runC06(c *Ctx) {
 			return true
 		})
 		if stratVar != nil {
+			// the flag: the parameter that receives the creator's partialResponse field at the call site
+			flag := "\x00none"
+			for _, g := range p.AllFuncs(true) {
+				ast.Inspect(g.Body(), func(n ast.Node) bool {
+					call, ok := n.(*ast.CallExpr)
+					if !ok || calleeOf(g.Info(), call) != nq.Obj || nq.Obj == nil {
+						return true
+					}
+					for i, a := range call.Args {
+						if strings.HasSuffix(canon(a), ".partialResponse") {
+							flag = namesOf(nq).P(i)
+						}
+					}
+					return true
+				})
+			}
 			inspectNoLit(nq.Body(), func(n ast.Node) bool {
 				ifs, ok := n.(*ast.IfStmt)
-				if !ok || exprString(ifs.Cond) != "partialResponse" || len(ifs.Body.List) != 1 {
+				if !ok || exprString(ifs.Cond) != flag || len(ifs.Body.List) != 1 {
 					return true
 				}
 				if as, ok := ifs.Body.List[0].(*ast.AssignStmt); ok && objOf(info, as.Lhs[0]) == stratVar && strings.HasSuffix(exprString(as.Rhs[0]), "PartialResponseStrategy_WARN") {
@@ -423,12 +451,12 @@ func runC06(c *Ctx) {
 			if !isIf {
 				return true
 			}
-			cond := canon(ifs.Cond)
-			if !(strings.HasSuffix(cond, `!=""`) && strings.Contains(strings.ToLower(cond), "warn")) {
+			be, isBin := unparen(ifs.Cond).(*ast.BinaryExpr)
+			if !isBin || be.Op != token.NEQ || canon(be.Y) != `""` || !strings.Contains(expandDefText(fn, fn.Info(), be.X), "GetWarning()") {
 				return true
 			}
 			ast.Inspect(ifs.Body, func(m ast.Node) bool {
-				if as, isAs := m.(*ast.AssignStmt); isAs && exprString(as.Lhs[0]) == "err" && strings.Contains(exprString(as.Rhs[0]), "status.Error(") {
+				if as, isAs := m.(*ast.AssignStmt); isAs && isErrorType(fn.Info().TypeOf(as.Lhs[0])) && strings.Contains(exprString(as.Rhs[0]), "status.Error(") {
 					ok = true
 				}
 				if r, isRet := m.(*ast.ReturnStmt); isRet && len(r.Results) == 1 && !isNil(fn.Info(), r.Results[0]) {
